@@ -159,8 +159,9 @@ def r1_containment(repo):
         obs.append(Ob("C06-R1", key, _w(f, r), ok, msg, {"guards": gtxt}))
     last = fn.body[-1]
     obs.append(Ob("C06-R1", "default-is-False", _w(f, last),
-                  isinstance(last, ast.Return) and const_value(last.value, 1) is False,
-                  "falling through every case must answer False; found `%s`" % src(last)))
+                  always_leaves(fn.body) and any(const_value(r.value, 1) is False for r in rets),
+                  "every path must end in an explicit answer (each one judged above) and the case analysis must have a "
+                  "negative default; last statement `%s`" % src(last)[:60]))
     return obs
 
 
